@@ -49,8 +49,22 @@ def showGenesis (g : GenesisFile.Genesis) : String :=
   let pa := match g.proposer with | none => "nil" | some b => Bytes.toHexTok b
   s!"cid={Bytes.toHexTok g.chainId} ih={g.initialHeight} t={g.time.unix}.{g.time.nsec} off={g.time.offMin} pa={pa}"
 
-def step (D : Layer) (line : String) : Layer × String :=
-  let o := parseOp line
+def showLoad : Except GenesisFile.LoadErr GenesisFile.Genesis → String
+  | .ok g => "ok " ++ showGenesis g
+  | .error e => "err:" ++ e.toString
+
+/-- driver state: what earlier loads left in memory shared with `DefaultConfig`, and the genesis
+files the scenario wrote (by path number) -/
+structure St where
+  D : Layer := []
+  disk : GenesisFile.Disk := []
+
+def init : St := {}
+
+/-- `at=<n>`: `none` = no such key, `some none` = malformed -/
+def slotOf (o : Op) : Option (Option Nat) := (o.get? "at").map String.toNat?
+
+def stepCfg (D : Layer) (o : Op) : Layer × String :=
   match o.verb with
   | "reset" => ([], "ok")
   | "load" =>
@@ -80,15 +94,29 @@ def step (D : Layer) (line : String) : Layer × String :=
     (nextDefaults table D [] file, s!"ok cfg={showCfg D [] file}")
   | "loadx" => (D, "checked")   -- values not of the option's type / malformed files: not predicted
   | "savex" => (D, "checked")   -- values on which the YAML writer and reader disagree: not predicted
-  | "genesis" =>
-    match genesisOfOp o with
-    | none => (D, "bad-op")
-    | some g =>
-      let v := match GenesisFile.validate g with | none => "ok" | some r => "err:" ++ r.toString
-      let l := match GenesisFile.load (GenesisFile.save g) with
-        | .ok g' => "ok " ++ showGenesis g'
-        | .error r => "err:" ++ r.toString
-      (D, s!"val={v} load={l}")
   | _ => (D, "bad-op")
+
+def step (s : St) (line : String) : St × String :=
+  let o := parseOp line
+  match o.verb with
+  | "reset" => ({}, "ok")
+  | "genesis" =>
+    match genesisOfOp o, slotOf o with
+    | none, _ => (s, "bad-op")
+    | _, some none => (s, "bad-op")
+    | some g, slot =>
+      let v := match GenesisFile.validate g with | none => "ok" | some r => "err:" ++ r.toString
+      -- no `at`: a fresh path for this op only
+      let p := match slot with | some (some p) => p + 1 | _ => 0
+      let disk := GenesisFile.saveAt s.disk p g
+      let l := showLoad (GenesisFile.loadAt disk p)
+      ({ s with disk := if p = 0 then s.disk else disk }, s!"val={v} load={l}")
+  | "gload" =>
+    match slotOf o with
+    | some (some p) => (s, "load=" ++ showLoad (GenesisFile.loadAt s.disk (p + 1)))
+    | _ => (s, "bad-op")
+  | _ =>
+    let (D, out) := stepCfg s.D o
+    ({ s with D := D }, out)
 
 end Drv.C18
